@@ -976,3 +976,238 @@ def rule_predicates_not_memoised(model: Model, rule_id: str = 'C13-R7') -> RuleR
     else:
         r.ok()
     return r
+
+
+# ---------------------------------------------------------------------------- C16: one field list for record, constructor, eq, order, hash
+
+
+def rule_one_field_list(model: Model, rule_id: str = 'C16-R7') -> RuleResult:
+    """The class record (__pane_info__.fields: repr, signature, layouts) and the generators of __init__ / __eq__ / ordering / __hash__ are
+    given the same list of fields, in the same order: lexicographic ordering is the order of *that* list."""
+    r = RuleResult(rule_id, 'the class record and the generated __init__ / __eq__ / ordering / __hash__ receive the same field list', floor=4)
+    f = model.func('pane.classes._process')
+    cfg = cfg_of(model, f)
+    rd = cfg.reaching()
+    nz = Normalizer(model, f, cfg, param_map=_pm(f))
+    r.analysed.add(f.qualname)
+    uses: t.List[t.Tuple[str, ast.AST, Node]] = []
+    for n in cfg.live_nodes():
+        for root in node_exprs(n):
+            for c in walk_no_nested(root):
+                if not isinstance(c, ast.Call):
+                    continue
+                q = model.resolve(c.func, f.module, f) or ''
+                short = q.rsplit('.', 1)[-1]
+                if short in ('_make_init', '_make_eq', '_make_ord', '_maybe_make_hash') and len(c.args) >= 2:
+                    uses.append((short, c.args[1], n))
+                elif short == 'PaneInfo':
+                    fa = next((k.value for k in c.keywords if k.arg == 'fields'), None)
+                    if fa is not None:
+                        uses.append(('PaneInfo.fields', fa, n))
+    if len(uses) < 4:
+        raise AnalysisError(f"{f.loc()}: _process: found only {[u[0] for u in uses]} among the consumers of the field list")
+
+    def origin(e: ast.AST, n: Node) -> t.FrozenSet[int]:
+        while isinstance(e, ast.Call) and isinstance(e.func, ast.Name) and e.func.id in ('tuple', 'list') and len(e.args) == 1:
+            e = e.args[0]
+        if isinstance(e, ast.Name) and rd.is_local(e.id):
+            defs = rd.at(n, e.id)
+            if len(defs) == 1 and defs[0].kind == 'assign' and defs[0].value is not None and not defs[0].path:
+                v = defs[0].value
+                inner = v
+                while isinstance(inner, ast.Call) and isinstance(inner.func, ast.Name) and inner.func.id in ('tuple', 'list') and len(inner.args) == 1:
+                    inner = inner.args[0]
+                if isinstance(inner, ast.Name) and rd.is_local(inner.id):
+                    return origin(inner, defs[0].node)       # a copy / alias of another local list
+            return frozenset(d.id for d in defs)
+        return frozenset({-abs(hash(nz.expr(e, n))) - 1})
+    ref_name, ref_e, ref_n = next(u for u in uses if u[0] == 'PaneInfo.fields') if any(u[0] == 'PaneInfo.fields' for u in uses) else uses[0]
+    ref = origin(ref_e, ref_n)
+    for (name, e, n) in uses:
+        r.instances += 1
+        same = origin(e, n) == ref
+        r.sample({'consumer': name, 'argument': unparse(e), 'same list as the class record': same})
+        if same:
+            r.ok()
+        else:
+            r.fail(f.qualname, f"{name}(cls, {unparse(e)}) while the class record holds {unparse(ref_e)}", f.loc(e),
+                   "a generated method works on another field list (another order) than the one the class shows in its signature, repr and "
+                   "layouts: e.g. ordering compares keyword-only fields before positional ones declared after them")
+    return r
+
+
+# ---------------------------------------------------------------------------- C17: field declarations do not stay behind as class attributes
+
+
+def rule_declarations_removed(model: Model, rule_id: str = 'C17-R12') -> RuleResult:
+    """A field declared with ``field(...)`` and no default leaves no class attribute behind: a declaration object that stays on the
+    base class is found by ``getattr`` when a subclass redeclares the field by annotation, and is then updated in place (the base's
+    own record changes with it)."""
+    r = RuleResult(rule_id, 'declaration objects returned by field() are removed from the class body once the record is built', floor=1)
+    fld = model.func('pane.field.field')
+    made: t.Set[str] = set()
+    for x in ast.walk(fld.node):
+        if isinstance(x, ast.Return) and isinstance(x.value, ast.Call):
+            q = model.resolve(x.value.func, fld.module, fld)
+            if q:
+                made.add(q)
+    f = model.func('pane.classes._process')
+    cfg = cfg_of(model, f)
+    nz = Normalizer(model, f, cfg, param_map=_pm(f))
+    r.analysed.add(f.qualname)
+    removed: t.Set[str] = set()
+    sites = 0
+    for n in cfg.live_nodes():
+        for root in node_exprs(n):
+            for c in walk_no_nested(root):
+                if isinstance(c, ast.Call) and isinstance(c.func, ast.Name) and c.func.id == 'delattr' and c.args and unparse(c.args[0]) == f.params[0]:
+                    sites += 1
+                    gov = _site_conditions(model, f, c)
+                    tests = [text for (_g, text, truth) in gov if truth and text.startswith('isinstance(getattr(')]
+                    if not tests:
+                        removed.add('*')      # unconditional removal
+                    for text in tests:
+                        m_ = re.search(r'\{(.*)\}\)$', text)
+                        if m_:
+                            removed |= {x.strip() for x in m_.group(1).split(',')}
+    _ = nz
+    r.instances += 1
+    r.sample({'field() returns': sorted(made), 'classes removed from the class body': sorted(removed)})
+    if not sites:
+        raise AnalysisError(f"{f.loc()}: _process no longer removes declarations from the class body (no delattr(cls, ...))")
+    if '*' in removed or (made and made <= removed):
+        r.ok()
+    else:
+        r.fail(f.qualname, f"delattr only for {sorted(removed)}; field() returns {sorted(made)}", f.loc(),
+               "a declaration without default stays on the class as an attribute: a subclass that redeclares the field by annotation picks "
+               "it up and rewrites its type in place, so every class built from the base afterwards sees the subclass's type")
+    return r
+
+
+# ---------------------------------------------------------------------------- C15 / C17: a layout is read exactly when it is enabled
+
+
+def rule_layout_dispatch(model: Model, rule_id: str = 'C15-R7') -> RuleResult:
+    """PaneConverter hands a sequence to the tuple reader, and a mapping to the struct reader, exactly when that layout is in
+    in_format: nothing else (another option, the number of fields ...) decides whether an enabled layout is read."""
+    r = RuleResult(rule_id, "the tuple / struct readers are reached exactly under (kind of the input, layout in in_format)", floor=4)
+    allowed = {
+        'tuple': [r"pane\.converters\.data_is_sequence\(VAL\)", r"'tuple' in self\.opts\.in_format"],
+        'struct': [r"pane\.converters\.data_is_mapping\(VAL\)", r"isinstance\(VAL, \{.*Mapping.*\}\)", r"'struct' in self\.opts\.in_format",
+                   r"pane\.converters\.data_is_sequence\(VAL\)"],
+    }
+    for mname in ('try_convert', 'collect_errors'):
+        f = model.func(f'pane.classes.PaneConverter.{mname}')
+        cfg = cfg_of(model, f)
+        nz = Normalizer(model, f, cfg)
+        from ..reach import Reach
+        reach = Reach(cfg, nz)
+        r.analysed.add(f.qualname)
+        for n in cfg.live_nodes():
+            for root in node_exprs(n):
+                for c in walk_no_nested(root):
+                    if not (isinstance(c, ast.Call) and isinstance(c.func, ast.Attribute) and isinstance(c.func.value, ast.Name)
+                            and c.func.value.id == f.params[0] and c.func.attr in (f'{mname}_tuple', f'{mname}_struct')):
+                        continue
+                    layout = c.func.attr.rsplit('_', 1)[1]
+                    r.instances += 1
+                    gov = _site_conditions(model, f, c)
+                    lits = [('' if truth else 'not ') + text for (_g, text, truth) in gov]
+                    extra = [x for x in lits if not any(re.fullmatch('(not )?' + pat, x) for pat in allowed[layout])]
+                    need = f"'{layout}' in self.opts.in_format"
+                    r.sample({'reader': f"{mname}_{layout}", 'reached when': lits})
+                    if extra:
+                        r.fail(f.qualname, f"{layout} reader also depends on {extra[0][:80]}", f.loc(c),
+                               f"data in the {layout} layout is refused although the layout is enabled (or read although it is not): whether a "
+                               f"layout is read must depend on in_format alone")
+                    elif need not in lits and not reach.implied(n, need, True):
+                        r.fail(f.qualname, f"{layout} reader not guarded by {need}", f.loc(c), f"the {layout} layout is read even when it is not enabled")
+                    else:
+                        r.ok()
+    _ = nz
+    return r
+
+
+# ---------------------------------------------------------------------------- C18: the declaration's settings reach the field unchanged
+
+
+PASS_THROUGH = ['init', 'exclude', 'repr', 'hash', 'compare', 'default', 'default_factory', 'kw_only', 'converter']
+
+
+def rule_field_settings_copied(model: Model, rule_id: str = 'C18-R9') -> RuleResult:
+    """make_field derives the names and the type; every other setting of the declaration (its own converter first of all) is copied to
+    the Field as it is, whatever the other settings are."""
+    r = RuleResult(rule_id, 'FieldSpec.make_field copies converter / init / exclude / repr / hash / compare / defaults / kw_only unchanged', floor=9)
+    f = model.func('pane.field.FieldSpec.make_field')
+    cfg = cfg_of(model, f)
+    nz = Normalizer(model, f, cfg, param_map=_pm(f))
+    r.analysed.add(f.qualname)
+    rets = [n for n in cfg.live_nodes() if n.kind == 'return' and n.ast is not None and isinstance(n.ast.value, ast.Call)]
+    if not rets:
+        raise AnalysisError(f"{f.loc()}: make_field does not return a Field(...) call")
+    for n in rets:
+        call = n.ast.value
+        kw = {k.arg: nz.expr(k.value, n) for k in call.keywords if k.arg}
+        for name in PASS_THROUGH:
+            r.instances += 1
+            got = kw.get(name)
+            if got == f'self.{name}':
+                r.ok()
+            else:
+                r.sample({name: got})
+                r.fail(f.qualname, f"{name}={str(got)[:70]}", f.loc(call),
+                       f"the field's `{name}` setting is not the one declared: e.g. a field converter that is dropped for some fields "
+                       f"(init=False ...) lets call-level, class-level or built-in converters serialise the field instead of its own")
+    return r
+
+
+# ---------------------------------------------------------------------------- C20 / C15: a style is applied when *it* is given
+
+
+def rule_style_guard_agrees(model: Model, rule_id: str = 'C20-R8') -> RuleResult:
+    """``rename_field(name, style) if <x> is not None else name``: the option tested is the option applied.  (One None-test guarding
+    the use of another optional argument is a contradiction in the code itself: either the test or the use names the wrong variable.)"""
+    r = RuleResult(rule_id, 'every rename_field(name, style) that is guarded by an `is not None` test is guarded by the test of that style', floor=1)
+    for f in model.all_functions():
+        if not isinstance(f.node, ast.FunctionDef) or not f.module.name.startswith('pane.'):
+            continue
+        sites = [c for c in walk_no_nested(f.node) if isinstance(c, ast.Call) and model.resolve(c.func, f.module, f) == 'pane.field.rename_field' and len(c.args) >= 2]
+        if not sites:
+            continue
+        cfg = cfg_of(model, f)
+        nz = Normalizer(model, f, cfg, param_map=_pm(f))
+        for c in sites:
+            n = cfg.node_of(c)
+            if n is None:
+                continue
+            try:
+                style = nz.expr(c.args[1], n, _bindings_at(c, nz, n))
+            except AnalysisError:
+                continue
+            gov = _site_conditions(model, f, c)
+            tested = [re.sub(r'^None is |( is None)$', '', text) for (_g, text, truth) in gov
+                      if re.fullmatch(r'None is \$?[\w.]+|\$?[\w.]+ is None', text) and not truth]
+            tested = [x.replace('$', '') for x in tested]
+            if not tested:
+                continue
+            r.instances += 1
+            r.analysed.add(f.qualname)
+            base = re.sub(r'^ELEM\((.*)\)$', r'\1', style).replace('$', '')
+            r.sample({'function': f.qualname, 'style applied': style, 'given-tests': tested})
+            if base in tested or any(base.endswith(x) or x.endswith(base) for x in tested):
+                r.ok()
+            else:
+                r.fail(f.qualname, f"rename_field(..., {style}) under `{tested[0]} is not None`", f.loc(c),
+                       "the style is applied depending on whether *another* option was given: with only this style set the name is left "
+                       "unstyled (and unsplittable names are accepted silently); with only the other one set, rename_field gets None")
+    return r
+
+
+def _bindings_at(sub: ast.AST, nz: Normalizer, n: Node) -> t.Dict[str, str]:
+    """Comprehension variables in scope at ``sub``."""
+    b: t.Dict[str, str] = {}
+    chain = [a for a in ancestors(sub) if isinstance(a, (ast.GeneratorExp, ast.ListComp, ast.SetComp, ast.DictComp))]
+    for comp in reversed(chain):
+        b2, _c = nz.comp_bindings(comp.generators, n, b, 0)
+        b = b2
+    return b
